@@ -1,4 +1,5 @@
 import IkeProofs.Lemmas.Cbc
+import IkeProofs.Lemmas.PrimsReal
 
 /-!
 # C10 — AES-CBC transform
@@ -278,5 +279,12 @@ example : cbcDecrypt C10_toyPrims ⟨[]⟩ (zeros 31) = .err ∧ cbcDecrypt C10_
     cbcDecrypt C10_toyPrims ⟨[]⟩ (zeros 31 ++ [16]) = .err ∧
     cbcDecrypt C10_toyPrims ⟨[]⟩ (zeros 31 ++ [3]) = .ok (zeros 12) := by
   decide +kernel
+
+/-- The hypothesis `P.Lawful` of the theorems above (the AES-CBC transform laws) is not an assumption about the
+primitives the model actually runs: the executable SHA-256 / SHA-1 / MD5 / HMAC / AES of
+`IkeModel/Crypto` — the ones the correspondence suites compare byte for byte with Go's standard
+library — satisfy it (digest lengths; AES block length; `dec k (enc k b) = b` for every key and
+block, proved from FIPS-197's inverse structure in `Lemmas/PrimsReal.lean`). -/
+theorem C10_real_lawful : Prims.real.Lawful := Prims.real_lawful
 
 end Ike
